@@ -704,7 +704,7 @@ def gen_cases(ctx):
     cdir = os.path.join(VERIF, 'corpus', 'C14')
     if os.path.isdir(cdir):
         for fn in sorted(os.listdir(cdir)):
-            if fn.endswith('.json'):
+            if fn.endswith('.json') and not fn.startswith('argv'):
                 c = json.load(open(os.path.join(cdir, fn)))
                 c['tag'] = 'corpus:' + fn
                 cases.append(c)
@@ -970,7 +970,7 @@ def argv_cases(ctx):
         for fn in sorted(os.listdir(cdir)):
             if fn.startswith('argv') and fn.endswith('.json'):
                 c = json.load(open(os.path.join(cdir, fn)))
-                c['tag'] = 'corpus:' + fn
+                c['corpus'] = fn
                 cases.append(c)
     for it in range(n):
         spec = A.gen_spec(rng, ctx.thorough)
@@ -1071,6 +1071,8 @@ def argv_oracle(c, o):
                 bad.append(f"front end of {inp['name']} failed but its dependency file {dp} was created/overwritten")
             if opath is not None and opath in o['changed']:
                 bad.append(f"front end of {inp['name']} failed but its output {opath} was created/overwritten")
+    if c.get('expect_fail') and rc == 0:
+        bad.append('an output of this command cannot be written but the driver exited with status 0')
     if c['tag'] != 'argv':
         return bad
     kind, outs = A.expected(spec)
@@ -1108,7 +1110,7 @@ def argv_leg(ctx, corr, H):
     corr.extra['argv_cases'] = len(cases)
     for i, (c, o) in enumerate(zip(cases, obs)):
         corr.evaluations += 1
-        corr.count(c['tag'] if not c['tag'].startswith('corpus') else 'argv:corpus')
+        corr.count('argv:corpus' if c.get('corpus') else c['tag'])
         corr.nontrivial.add('argv:' + argv_key(c))
         m = model[i] if i < len(model) else '<missing>'
         viol = argv_oracle(c, o)
